@@ -31,6 +31,8 @@ def isPermB (a b : List Vec) : Bool :=
   a.length == b.length && a.all (fun x => a.count x == b.count x)
 
 def tiny (M : Rat) : Rat := (1 + M) / 1000000000
+/-- documented precision of the library's LP wrapper (`LP::getPrecision()`), relative to the magnitude of the data -/
+def lpTol (M : Rat) : Rat := (1 + M) * Gen.C12Src.lpPrecision
 
 /-- smallest distance of any `dominates` comparison among `vs` from its threshold -/
 def domMargin (vs : List Vec) : Rat :=
@@ -192,7 +194,7 @@ def prune : P String := do
   -- oracle contract on the recorded answers (the library's own WitnessLP)
   let badW := calls.any (fun c => match c.w with
     | some w => match normalize w with
-        | some w' => c.best.any (fun g => decide (dot w' c.v + tiny M < dot w' g))
+        | some w' => c.best.any (fun g => decide (dot w' c.v + lpTol M < dot w' g))
         | none => true
     | none => false)
   let a := { a with v := a.v.failIf badW "WitnessLP witness_below_a_best_vector" }
@@ -272,7 +274,9 @@ def clausesCommon (comp : String) (i : InterpIn) (cv : Vec) (value : Rat) (w : V
   let v := v.failIf (w.length != i.S + i.N) s!"{comp} weights_wrong_size {w.length}"
   let bad := (List.range i.S).any (fun s => decide (tolR < absQ (reconAt i.point wc wp i.pts s)))
   let v := v.failIf bad s!"{comp} weights_do_not_reconstruct {showVec w}"
-  let v := v.failIf (!(nonneg w)) s!"{comp} weights_negative {showVec w}"
+  -- "non-negative up to the documented tolerance": the zero test of both functions lets a coordinate in (0, 1e-6]
+  -- count as zero, which can leave a corner weight of that size below zero (`sawtooth_repaired_weights_needs_hz`)
+  let v := v.failIf (w.any (fun x => decide (x < -Gen.equalToleranceSmall))) s!"{comp} weights_negative {showVec w}"
   v.failIf (decide (weightedValue cv wc wp i.vals + tolV < value)) s!"{comp} value_exceeds_weighted_sum value={ratStr value} sum={ratStr (weightedValue cv wc wp i.vals)}"
 
 /-- some coordinate of the query or of a stored point is non-zero but within the library's zero tolerance -/
